@@ -467,3 +467,43 @@ def values_under_hash_seeds(code, payload, seeds, timeout=300):
             if line.startswith("VFOUT"):
                 out[sd] = json.loads(line[5:])["result"]
     return out
+
+
+def values_under_interpreter_flags(code, payload, flag_sets, timeout=300):
+    """Like values_under_hash_seeds, one child per set of interpreter flags ((), ("-O",), ("-OO",), ("-X", "dev") ...):
+    asserts and docstrings are not there under -O / -OO, and the library must import and answer all the same."""
+    import json
+    import os
+    import subprocess
+
+    from vf import harness
+
+    driver = (
+        "import json, sys, warnings\n"
+        "warnings.simplefilter('ignore')\n"
+        "import numpy as np\n"
+        "payload = json.loads(sys.stdin.read())\n"
+        "g = {'np': np, 'payload': payload}\n"
+        "exec(payload['__code__'], g)\n"
+        "print('VFOUT' + json.dumps({'optimize': sys.flags.optimize, 'result': g['result']}))\n"
+    )
+    env = dict(os.environ, PYTHONPATH=os.path.join(harness.REPO, "src"), MPLBACKEND="Agg")
+    env.pop("PYTHONOPTIMIZE", None)
+    procs = {}
+    for flags in flag_sets:
+        procs[tuple(flags)] = subprocess.Popen([sys.executable, *flags, "-c", driver], stdin=subprocess.PIPE, stdout=subprocess.PIPE, stderr=subprocess.PIPE, text=True, env=env)
+    out = {}
+    for flags, p in procs.items():
+        try:
+            so, se = p.communicate(json.dumps(dict(payload, __code__=code)), timeout=timeout)
+        except subprocess.TimeoutExpired:
+            p.kill()
+            out[flags] = "inconclusive:timeout"
+            continue
+        out[flags] = f"failed:child exited {p.returncode}: {se.strip().splitlines()[-1][:200] if se.strip() else ''}"
+        for line in so.splitlines():
+            if line.startswith("VFOUT"):
+                d = json.loads(line[5:])
+                want = 2 if "-OO" in flags else (1 if "-O" in flags else 0)
+                out[flags] = d["result"] if d["optimize"] == want else "inconclusive:child did not run at the optimisation level asked for"
+    return out
